@@ -131,4 +131,18 @@ def wellFormedTrusting (inp : Input) (valid : Nat → Nat → Bool) : Bool :=
 def specTrustingExact (inp : Input) (valid : Nat → Nat → Bool) (accepted : Bool) : Bool :=
   !wellFormedTrusting inp valid || (accepted == decide (3 * trustedSigningPower inp > 1 * total inp))
 
+/-- trusting soundness at an arbitrary trust level `n/d` (the property's 1/3 is `n = 1, d = 3`):
+    accepted only if distinct trusted validators with valid signatures carry strictly more than
+    `n/d` of the total (`d·power > n·total`) -/
+def specTrustingSoundLevel (n d : Nat) (inp : Input) (valid : Nat → Nat → Bool) (accepted : Bool) : Bool :=
+  !accepted || decide (d * validPowerTrusting inp valid > n * total inp)
+
+/-- "exactly when" at an arbitrary trust level: under `wellFormedTrusting`, accepted ⇔ the level is
+    usable (`d ≠ 0`, `n·total` fits in 64 bits) and the distinct trusted signers carry strictly more
+    than `n/d` of the total -/
+def specTrustingExactLevel (n d : Nat) (inp : Input) (valid : Nat → Nat → Bool) (accepted : Bool) : Bool :=
+  !wellFormedTrusting inp valid ||
+    (accepted == (decide (0 < d) && decide (n * total inp < 18446744073709551616) &&
+                  decide (d * trustedSigningPower inp > n * total inp)))
+
 end Lumina.Spec.C03
